@@ -13,7 +13,7 @@ import c01, c03, c05
 
 def base_programs(tier, sd):
     progs = []
-    want = {"nest", "nest3", "for", "select", "select-edge", "elseif", "random", "err", "empty"}
+    want = {"nest", "nest3", "for", "select", "select-edge", "elseif", "random", "err", "empty", "forconv", "truth", "condfrac"}
     for c in c01.cases(tier, sd):
         f = c["fam"].split(":")[0]
         if f in want:
@@ -31,10 +31,10 @@ def base_programs(tier, sd):
         rest = [c for c in progs if c["fam"].split(":")[0] not in ("nest", "for")]
         rng.shuffle(rest)
         rng.shuffle(keep)
-        edge = [c for c in rest if c["fam"].startswith(("select-edge", "elseif", "empty"))]
+        edge = [c for c in rest if c["fam"].startswith(("select-edge", "elseif", "empty", "forconv", "truth", "condfrac"))]
         frames = [c for c in rest if c["fam"].startswith(("goto-frames", "goto-select", "for-header-calls", "exit"))]
-        rest = [c for c in rest if not c["fam"].startswith(("select-edge", "elseif", "empty", "goto-frames", "goto-select", "for-header-calls", "exit"))]
-        progs = keep[:500] + rest[:560] + edge[:260] + frames
+        rest = [c for c in rest if not c["fam"].startswith(("select-edge", "elseif", "empty", "forconv", "truth", "condfrac", "goto-frames", "goto-select", "for-header-calls", "exit"))]
+        progs = keep[:500] + rest[:560] + edge[:420] + frames
     for i, c in enumerate(progs):
         c["id"] = i + 1
     return progs
